@@ -26,6 +26,9 @@ func (r *Runner) Run() error {
 		if err != nil {
 			return err
 		}
+		if exe.Return {
+			return nil
+		}
 		if exe.RegisterChange {
 			r.Ctx.WriteRegister(exe)
 		} else if exe.MemoryChange {
